@@ -39,7 +39,7 @@ func init() {
 					u = append(u, fmt.Sprintf("directive combination %d never compiled", o))
 				}
 			}
-			for _, c := range []string{"snapshots_compared", "repeat_compilations", "shuffled_compilations", "aliasing_probes_copyconfig", "aliasing_probes_extendconf", "nil_map_configs", "big_list_constants", "undefined_mode_sources", "infix_sources", "sources_with_plain_comment_before_directive", "compile_errors_snapshotted"} {
+			for _, c := range []string{"snapshots_compared", "repeat_compilations", "shuffled_compilations", "aliasing_probes_copyconfig", "aliasing_probes_extendconf", "nil_map_configs", "big_list_constants", "undefined_mode_sources", "infix_sources", "sources_with_plain_comment_before_directive", "compile_errors_snapshotted", "nil_config_compilations"} {
 				if m.C(c) == 0 {
 					u = append(u, c+" = 0")
 				}
@@ -325,6 +325,49 @@ func c08Run(w *W, idx int) {
 		}
 	}
 	c08Aliasing(w, r, cases[0])
+	c08NilConfig(w, r)
+}
+
+// c08NilConfig: Compile(nil, src) is compilation with an empty config. A closed program (literals and built-in operators
+// only) is compiled with a nil config before and after other nil-config compilations that carry directives (some of
+// them failing); every time it must give the program an empty Config object built by the caller gives.
+func c08NilConfig(w *W, r *rand.Rand) {
+	g := &G{R: r, Aliases: true, Lists: true, Encodings: true, MaxArity: 4, Budget: 60, Fail: 0.05}
+	tree := g.Root(2 + r.Intn(3))
+	src := tree.Prefix()
+	comp := func(cc *eval.Config, s string) *c08Compiled {
+		e, co := compileGuard(cc, s)
+		w.Evals++
+		res := &c08Compiled{}
+		if co.Panic != nil {
+			res.err = fmt.Sprint("panic: ", co.Panic)
+			return res
+		}
+		if co.Err != nil {
+			res.err = co.Err.Error()
+			return res
+		}
+		res.dump, _ = dumpGuard(e)
+		o, _ := callExpr(e, CallEval, fetcherFor(Binding{}, nil), nil, false)
+		res.outs = append(res.outs, o)
+		return res
+	}
+	ref := comp(eval.NewConfig(), src)
+	for round := 0; round < 3; round++ {
+		got := comp(nil, src)
+		w.Inc("nil_config_compilations")
+		if d := c08Same(ref, got); d != "" {
+			w.Fail("compile-not-deterministic/nil-config", "Compile(nil, src) gives a different program than Compile(NewConfig(), src) after %d other nil-config compilation(s) with directives: %s\nsource: %q", round, d, firstN(src, 1500))
+			return
+		}
+		// an unrelated compilation with a directive, also with a nil config
+		other := (&G{R: r, Aliases: true, MaxArity: 3, Budget: 20}).Root(2).Prefix()
+		other = c08Directive(r, w) + other
+		if r.Intn(4) == 0 {
+			other = mutateSource(r, other, w)
+		}
+		comp(nil, other)
+	}
 }
 
 // aliasing probes for CopyConfig / ExtendConf
